@@ -267,6 +267,12 @@ HashNoVisitA(n) == LET r == HashNoVisit(tbl, cache, n) IN
                    /\ cache' = r.c
                    /\ hist' = Append(hist, Call("novisit", n, r.h))
                    /\ UNCHANGED tbl
+\* a caller pre-seeding the shared cache through the public TreeCache::insert with the node's true hash
+\* (only for nodes without a memoised hash, which also keeps the hash store bounded)
+InsertA(n) == /\ Get(tbl, cache, n) = None
+              /\ cache' = Insert(tbl, cache, n, TH(tbl, n))
+              /\ hist' = Append(hist, Call("insert", n, <<>>))
+              /\ UNCHANGED tbl
 HashPlainA(n) == /\ hist' = Append(hist, Call("plain", n, HashPlain(tbl, n)))
                  /\ UNCHANGED <<tbl, cache>>
 HashFromBytesA(n, share) == /\ hist' = Append(hist, Call(IF share THEN "bytes_br" ELSE "bytes", n, HashFromBytes(tbl, n, share)))
@@ -276,8 +282,9 @@ HashEncoderA(n) == /\ hist' = Append(hist, Call("enc", n, HashEncoder(Unfold(tbl
 
 \* ------------------------------------------------------------ properties
 \* every hash ever returned is the reference hash of its node
-ResultsCorrect == \A i \in DOMAIN hist : (IsCall(hist[i]) /\ hist[i].k # "visit") => hist[i].h = TH(tbl, hist[i].n)
-LastResultCorrect == (hist # <<>> /\ IsCall(Top(hist)) /\ Top(hist).k # "visit") => Top(hist).h = TH(tbl, Top(hist).n)
+NoResult == {"visit", "insert"}
+ResultsCorrect == \A i \in DOMAIN hist : (IsCall(hist[i]) /\ hist[i].k \notin NoResult) => hist[i].h = TH(tbl, hist[i].n)
+LastResultCorrect == (hist # <<>> /\ IsCall(Top(hist)) /\ Top(hist).k \notin NoResult) => Top(hist).h = TH(tbl, Top(hist).n)
 \* memoised slots hold the hash of their node
 SlotsCorrect == \A n \in DOMAIN tbl : Get(tbl, cache, n) # None => Get(tbl, cache, n) = TH(tbl, n)
 \* shape of the cache: sentinels or valid, pairwise distinct slot numbers; every slot is owned
